@@ -31,7 +31,8 @@ ALLOWED_AXIOMS: list[str] = []
 RULE = ("structured enumeration + seeded sampling of scripted runs: request scripts of length <= 3 over {F, G, FG, F-batch-2} at "
         "two points, one faulty evaluation (every index) with every failing (vector, realization) / (realization, perturbation) "
         "subset for R,P <= 2 (thorough: exhaustive; quick: all subsets for the single-evaluation scripts + a seeded sample of the "
-        "rest), evaluator exceptions (ten classes incl. BaseException subclasses and ropt's own PlanAborted / ConfigError) and "
+        "rest), evaluator exceptions (17 classes incl. BaseException subclasses, ropt's own PlanAborted / ConfigError, OSError and five "
+        "of its subclasses - also with optimizer.stdout / stderr redirected, where the evaluation runs inside _Redirector.suspend) and "
         "evaluator-raised aborts, both step kinds and BasicOptimizer, no filter / sort-objective / sort-constraint / "
         "cvar-objective / cvar-constraint, mean / stddev, no / variable / objective / constraint / all transforms, "
         "realization_min_success 0..R, perturbation_min_success 1..P, allow_nan on/off, max_functions None and every value up to "
@@ -71,7 +72,9 @@ KINDS = ("F", "G", "FG")
 _ENV = None
 # classes of the exception the evaluator raises on a "raise" fault (the case's "excls"; default ValueError)
 EXC_CLASSES = ["ValueError", "RuntimeError", "KeyboardInterrupt", "AssertionError", "ZeroDivisionError", "UnboundLocalError",
-               "TypeError", "Boom", "PlanAborted", "ConfigError", "SystemExit"]
+               "TypeError", "Boom", "PlanAborted", "ConfigError", "SystemExit",
+               "OSError", "FileNotFoundError", "PermissionError", "ConnectionError", "TimeoutError", "BrokenPipeError"]
+OS_CLASSES = EXC_CLASSES[-6:]
 
 
 def _env():
@@ -239,6 +242,8 @@ def make_config(case, maxf="case"):
         cfg["variables"]["mask"] = [True, False]
     if case.get("redirect"):
         cfg["optimizer"]["stdout"] = case["redirect"]
+        if case.get("redirect_err"):
+            cfg["optimizer"]["stderr"] = case["redirect_err"]
     return cfg
 
 
@@ -400,8 +405,12 @@ def run_impl(case):
         import tempfile
         fd, tmp = tempfile.mkstemp(prefix="c14-stdout-", dir="/tmp")
         os.close(fd)
+        tmp2 = None
+        if case["redirect"] == "both":                 # optimizer.stderr to a file of its own
+            fd, tmp2 = tempfile.mkstemp(prefix="c14-stderr-", dir="/tmp")
+            os.close(fd)
         fds_before = set(os.listdir("/proc/self/fd"))
-        case = {**case, "redirect": tmp}
+        case = {**case, "redirect": tmp, "redirect_err": tmp2}
     cfg = make_config(case)
     start = [0.25, 0.0] if case.get("explicit") else None
     plans = []
@@ -499,10 +508,12 @@ def run_impl(case):
                 os.close(int(fd))
             except OSError:
                 pass
-        try:
-            os.unlink(tmp)
-        except OSError:
-            pass
+        for f in (tmp, case.get("redirect_err")):
+            try:
+                if f:
+                    os.unlink(f)
+            except OSError:
+                pass
     return {"outcome": outcome, "delivered": delivered, "groups": groups, "events": events, "calls": evaluator.calls,
             "aborted": [bool(p.aborted) for p in plans], "transformed_ok": shapes_ok[0], "metadata_ok": meta_ok[0],
             "record": evaluator.record, "second": second, "basic": basic}
@@ -934,6 +945,13 @@ def _dress(case, rng):
         # runs whose outcome depends on a tracker (nested, BasicOptimizer.results) use positive weights
         c["weights"] = rng.choice([w for w in WEIGHTS[c["R"]] if not (nested or basic) or 0 not in w])
     c["excls"] = rng.choice(EXC_CLASSES)
+    raises = any((r.get("fault") or {}).get("exc") == "raise" for r in c["script"])
+    if c["step"] == "optimizer" and not nested and rng.random() < (0.45 if raises else 0.03):
+        # optimizer.stdout (/ stderr) redirected to files; evaluations run with the redirection suspended (_Redirector):
+        # an exception of the evaluator -- OSError subclasses in particular -- must pass through the suspension
+        c["redirect"] = rng.choice([True, "both"])
+        if raises and rng.random() < 0.6:
+            c["excls"] = rng.choice(OS_CLASSES)
     if basic:
         c["step"] = "basic"
         return c
@@ -944,8 +962,6 @@ def _dress(case, rng):
         c["mask"] = True
     if rng.random() < 0.15 and c["R"] >= 1:
         c["unused_filter"] = True
-    if c["step"] == "optimizer" and not nested and rng.random() < 0.03:
-        c["redirect"] = True
     if rng.random() < 0.25:
         c["metadata"] = True
     if c["step"] == "optimizer" and rng.random() < 0.25:
